@@ -278,6 +278,9 @@ func (h *ProposalHandler) CheckInitialSignaturesFromLastCommit(ctx sdk.Context, 
 		if err != nil {
 			h.logger.Error("CheckInitialSignaturesFromLastCommit: failed to unmarshal vote extension", "error", err)
 			// check for initial sig
+		} else if len(voteExt.InitialSignature.SignatureA) > 0 && (len(voteExt.InitialSignature.SignatureA) < 64 || len(voteExt.InitialSignature.SignatureB) < 64) {
+			// too short to be r || s: address recovery would slice past the end; skip the registration
+			h.logger.Error("CheckInitialSignaturesFromLastCommit: initial signature shorter than 64 bytes")
 		} else if len(voteExt.InitialSignature.SignatureA) > 0 {
 			// verify initial sig
 			evmAddress, err := h.bridgeKeeper.EVMAddressFromSignatures(ctx, voteExt.InitialSignature.SignatureA, voteExt.InitialSignature.SignatureB)
